@@ -1810,7 +1810,9 @@ func (r *Runtime) toValue(i interface{}, origValue reflect.Value) Value {
 	case string:
 		if len(i) <= 16 {
 			if u := unistring.Scan(i); u != nil {
-				return &importedString{s: i, u: u, scanned: true}
+				is := &importedString{s: i, u: u}
+				is.scanned.Store(true)
+				return is
 			}
 			return asciiString(i)
 		}
